@@ -165,6 +165,17 @@ def run(ctx):
         a = [e for e in ev if e.kind == 'assign' and e.value == Form.atom('%s.Hnet' % s) + Form.atom('Q')]
         c = [e for e in ev if e.kind == 'call' and e.target == 'self' and e.value == [Form.atom(s)]]
         st = [e for e in ev if e.kind == 'store' and e.target == '%s.H' % s]
+        # the same closure through the Hnet setter (H <- Hnet - Hf, decided by D4): stream.Hnet = Hnet_before + Q after the reaction
+        via = [e for e in ev if e.kind == 'store' and e.target == '%s.Hnet' % s]
+        if a and c and via and not st and ev.index(a[0]) < ev.index(c[0]) < ev.index(via[0]) \
+                and via[0].value == Form.atom('%s.Hnet' % s) + Form.atom('Q'):
+            d3.ok('Reaction.adiabatic_reaction', 'Hnet+Q is read before the reaction is applied', g, a[0].stmt)
+            d3.ok('Reaction.adiabatic_reaction', 'Hnet <- (Hnet before + Q) after the reaction: the Hnet setter stores H <- Hnet - Hf with Hf read then (D4)', g, via[0].stmt)
+            if len([e for e in ev if e.kind == 'call' and e.target == 'self']) == 1:
+                d3.ok('Reaction.adiabatic_reaction', 'the reaction is applied exactly once', g, c[0].stmt)
+            else:
+                d3.fail('Reaction.adiabatic_reaction', 'twice', 'the reaction is applied more than once', g, g.node)
+            continue
         if c and not st:
             d3.fail('Reaction.adiabatic_reaction', 'exit-without-closure',
                     'a path applies the reaction and returns without assigning H: Q and the heat of reaction are dropped on it (taken when %s)'
